@@ -27,7 +27,7 @@ import sys
 import logging
 import asyncio
 import argparse
-from urllib.parse import urljoin
+from urllib.parse import urljoin, urlsplit
 import itertools
 
 import aiocoap
@@ -101,6 +101,101 @@ def pop_single_arg(query, name):
     if len(query[name]) > 1:
         raise error.BadRequest("Multiple values for %r" % name)
     return query.pop(name)[0]
+
+
+# The components of a URI reference, from RFC 3986 Appendix B
+_URI_REFERENCE = re.compile(
+    r"(?:([^:/?#]+):)?(?://([^/?#]*))?([^?#]*)(?:\?([^#]*))?(?:#(.*))?", re.DOTALL
+)
+
+
+def _remove_dot_segments(path):
+    """The remove_dot_segments routine of RFC 3986 Section 5.2.4"""
+    output = []
+    while path:
+        if path.startswith("../"):
+            path = path[3:]
+        elif path.startswith("./"):
+            path = path[2:]
+        elif path.startswith("/./"):
+            path = path[2:]
+        elif path == "/.":
+            path = "/"
+        elif path.startswith("/../"):
+            path = path[3:]
+            del output[-1:]
+        elif path == "/..":
+            path = "/"
+            del output[-1:]
+        elif path in (".", ".."):
+            path = ""
+        else:
+            # the first segment, with its leading slash if there is one
+            end = path.find("/", 1)
+            if end == -1:
+                end = len(path)
+            output.append(path[:end])
+            path = path[end:]
+    return "".join(output)
+
+
+def resolve_reference(base, reference):
+    """Resolve a URI reference against a base URI as described in RFC 3986
+    Section 5.2.
+
+    This is used rather than :func:`urllib.parse.urljoin` because that
+    only resolves references for the schemes it knows, drops empty path
+    segments when merging paths (in CoAP, they are Uri-Path options like any
+    other), and does not tell an empty query from an absent one. Like urljoin,
+    it raises ValueError for components urllib can not make sense of.
+
+    >>> resolve_reference("coap+uart://node/dev/", "/sensors/temp")
+    'coap+uart://node/sensors/temp'
+    >>> resolve_reference("coap://node/fw//v2/", "../status")
+    'coap://node/fw//status'
+    >>> resolve_reference("coap://node/dev?x=1", "?")
+    'coap://node/dev?'
+    """
+    urlsplit(base)
+    urlsplit(reference)
+
+    b_scheme, b_authority, b_path, b_query, _ = _URI_REFERENCE.fullmatch(base).groups()
+    scheme, authority, path, query, fragment = _URI_REFERENCE.fullmatch(
+        reference
+    ).groups()
+
+    if scheme is not None:
+        path = _remove_dot_segments(path)
+    else:
+        scheme = b_scheme
+        if authority is not None:
+            path = _remove_dot_segments(path)
+        else:
+            authority = b_authority
+            if path == "":
+                path = b_path
+                if query is None:
+                    query = b_query
+            elif path.startswith("/"):
+                path = _remove_dot_segments(path)
+            else:
+                if b_authority is not None and b_path == "":
+                    path = "/" + path
+                else:
+                    path = b_path[: b_path.rfind("/") + 1] + path
+                path = _remove_dot_segments(path)
+
+    result = ""
+    if scheme is not None:
+        result += scheme + ":"
+    if authority is not None:
+        result += "//" + authority
+    result += path
+    if query is not None:
+        result += "?" + query
+    if fragment is not None:
+        result += "#" + fragment
+    return result
 
 
 class CommonRD:
@@ -297,14 +392,16 @@ class CommonRD:
             suitable for comparing anchors)."""
             result = []
             for link in self.links.links:
-                href = urljoin(self.base, link.href)
+                href = resolve_reference(self.base, link.href)
                 if "anchor" in link:
-                    absanchor = urljoin(self.base, link.anchor)
+                    absanchor = resolve_reference(self.base, link.anchor)
                     data = [(k, v) for (k, v) in link.attr_pairs if k != "anchor"] + [
                         ["anchor", absanchor]
                     ]
                 else:
-                    data = link.attr_pairs + [["anchor", urljoin(href, "/")]]
+                    data = link.attr_pairs + [
+                        ["anchor", resolve_reference(href, "/")]
+                    ]
                 result.append(Link(href, data))
             return LinkFormat(result)
 
@@ -703,7 +800,7 @@ class ResourceLookupInterface(ThingWithCommonRD, ObservableResource):
         # strip needless anchors
         candidates = [
             Link(link.href, [(k, v) for (k, v) in link.attr_pairs if k != "anchor"])
-            if dict(link.attr_pairs)["anchor"] == urljoin(link.href, "/")
+            if dict(link.attr_pairs)["anchor"] == resolve_reference(link.href, "/")
             else link
             for link in candidates
         ]
